@@ -281,12 +281,9 @@ func ruleC05Trailer(c *Ctx) {
 		var cleanupVar, dirtyVar types.Object
 		for _, cs := range f.calls {
 			if cs.Target == newTW {
-				walkOwn(f.Body(), func(nd ast.Node) {
-					as, ok := nd.(*ast.AssignStmt)
-					if ok && len(as.Rhs) == 1 && ast.Unparen(as.Rhs[0]) == ast.Expr(cs.Call) && len(as.Lhs) >= 2 {
-						cleanupVar = objOfIdent(info, as.Lhs[1])
-					}
-				})
+				if o := tapeWriterVar(f, cs.Call, 1); o != nil {
+					cleanupVar = o
+				}
 			}
 		}
 		if cleanupVar == nil {
@@ -480,10 +477,31 @@ func (c *Ctx) tapeCleanup(newTW *FuncInfo) (*FuncInfo, func(info *types.Info, e 
 	}
 	var found *FuncInfo
 	for _, ret := range returnsIn(newTW) {
-		if len(ret.Results) < 2 {
+		var cl ast.Expr
+		if len(ret.Results) >= 3 {
+			cl = ret.Results[1]
+		} else if len(ret.Results) >= 1 {
+			// bundled in a struct: the function-typed element of the returned composite literal
+			e := ast.Unparen(ret.Results[0])
+			if u, ok := e.(*ast.UnaryExpr); ok && u.Op == token.AND {
+				e = ast.Unparen(u.X)
+			}
+			if lit, ok := e.(*ast.CompositeLit); ok {
+				for _, el := range lit.Elts {
+					v := el
+					if kv, ok := el.(*ast.KeyValueExpr); ok {
+						v = kv.Value
+					}
+					if tv, ok := info.Types[v]; ok && tv.Type != nil && tapeWriterPart(tv.Type) == 1 {
+						cl = v
+					}
+				}
+			}
+		}
+		if cl == nil {
 			continue
 		}
-		switch x := ast.Unparen(ret.Results[1]).(type) {
+		switch x := ast.Unparen(cl).(type) {
 		case *ast.FuncLit:
 			found = c.byLit[x]
 		case *ast.SelectorExpr:
